@@ -246,6 +246,56 @@ def parse_real(idt, alg, pub, client, iss, nonce, at):
         return False
 
 
+def rp_key_rotation(ctx, alg):
+    """One relying-party client object across a rotation of the provider's signing key UNDER THE SAME kid: after the provider's key
+    set changed, tokens of the new key are accepted and tokens of the old key are refused ("rejected if the verification key differs")."""
+    from authlib.jose import jwt as _jwt
+    priv_a, pub_a, _ = keypair(alg)
+    if alg.startswith("HS"):
+        key_a, key_b = pub_a, pub_a + "-rotated"
+        jwk_a, jwk_b = (dict(JsonWebKey.import_key(k, {"kty": "oct"}).as_dict(), kid="k") for k in (key_a, key_b))
+        sign_a, sign_b = key_a, key_b
+    else:
+        from cryptography.hazmat.primitives.asymmetric import ec, rsa, ed25519
+        from cryptography.hazmat.primitives import serialization as ser
+        if alg[:2] in ("RS", "PS"):
+            kb = rsa.generate_private_key(65537, 2048)
+        elif alg == "EdDSA":
+            kb = ed25519.Ed25519PrivateKey.generate()
+        else:
+            kb = ec.generate_private_key({"ES256": ec.SECP256R1(), "ES384": ec.SECP384R1(), "ES512": ec.SECP521R1(), "ES256K": ec.SECP256K1()}[alg])
+        sign_a = priv_a
+        sign_b = kb.private_bytes(ser.Encoding.PEM, ser.PrivateFormat.PKCS8, ser.NoEncryption())
+        jwk_a = dict(JsonWebKey.import_key(pub_a).as_dict(), kid="k")
+        jwk_b = dict(JsonWebKey.import_key(kb.public_key().public_bytes(ser.Encoding.PEM, ser.PublicFormat.SubjectPublicKeyInfo)).as_dict(), kid="k")
+    now = int(time.time())
+    claims = {"iss": ISS, "sub": "alice", "aud": ["rp1"], "exp": now + 600, "iat": now, "nonce": "n1"}
+    tok_a = _jwt.encode({"alg": alg, "kid": "k"}, claims, sign_a).decode()
+    tok_b = _jwt.encode({"alg": alg, "kid": "k"}, claims, sign_b).decode()
+    rp = RP("rp1", ISS, {"keys": [jwk_a]}, [alg])
+
+    def parse(tok):
+        try:
+            rp.parse_id_token({"id_token": tok}, "n1", leeway=120)
+            return True
+        except (JoseError, ValueError):
+            return False
+    steps = [("before:own-key", tok_a, True), ("before:other-key", tok_b, False)]
+    got = [(lab, parse(t), want) for lab, t, want in steps]
+    rp.server_metadata["jwks"] = {"keys": [jwk_b]}           # the provider rotated its key, same kid
+    got += [(lab, parse(t), want) for lab, t, want in (("after:new-key", tok_b, True), ("after:old-key", tok_a, False), ("after:new-key-again", tok_b, True))]
+    rp.server_metadata["jwks"] = {"keys": [jwk_a, dict(jwk_b, kid="k2")]}     # and back, with the other key under another kid
+    got += [(lab, parse(t), want) for lab, t, want in (("back:old-key", tok_a, True), ("back:new-key-wrong-kid", tok_b, False))]
+    case = {"rp_key_rotation": alg}
+    ctx.case(case, ("rotation", alg), "rp-rotation:%s" % alg[:2])
+    for lab, ok, want in got:
+        ctx.count("rp-rotation:%s:%s" % (lab, "accept" if ok else "refuse"))
+        if ok != want:
+            ctx.violation("C13:rp-key-rotation:%s:%s" % (lab, "accepted" if ok else "refused"),
+                          "one relying-party client across a key rotation under the same kid: a token was %s against the provider's CURRENT key set" % ("accepted" if ok else "refused"),
+                          dict(case, step=lab))
+
+
 def check_combo(ctx, rt, alg, nonce, extra, aud_as_text=False):
     AUD_AS_TEXT[0] = aud_as_text
     try:
@@ -394,6 +444,9 @@ def run(ctx):
     for i, rt in enumerate(RTS):
         for alg in (ALGS if ctx.tier != "quick" else [ALGS[i % len(ALGS)], ALGS[(i + 5) % len(ALGS)]]):
             check_combo(ctx, rt, alg, "n-0Aa", {}, aud_as_text=True)
+    for alg in (ALGS if ctx.tier != "quick" else ["HS256", "RS256", "ES256", "EdDSA"]):
+        if alg in ALGS:
+            rp_key_rotation(ctx, alg)
     nonce_sequences(ctx, 60 if ctx.tier == "quick" else 600)
 
 
@@ -402,4 +455,6 @@ def run_case(ctx, case):
     if "steps" in case:
         nonce_sequences(ctx, 0)
         return
+    if "rp_key_rotation" in case:
+        return rp_key_rotation(ctx, case["rp_key_rotation"])
     check_combo(ctx, case["rt"], case["alg"], case["nonce"], case["extra"], case.get("aud_as_text", False))
